@@ -168,20 +168,81 @@ impl MaxCharsCommandSizeLimiter {
         const MAX_CMDLINE: usize = 32767;
         MaxCharsCommandSizeLimiter::new(MAX_CMDLINE)
     }
+}
 
-    #[cfg(unix)]
+/// The operating system's own limit on a command line (see execve(2)): the
+/// argument and environment strings *and one pointer for each of them* have to
+/// fit into the space the kernel grants, and no single string may be longer
+/// than the per-argument maximum.
+#[cfg(unix)]
+#[derive(Clone)]
+struct SystemCommandSizeLimiter {
+    current_size: usize,
+    max_size: usize,
+}
+
+#[cfg(unix)]
+impl SystemCommandSizeLimiter {
+    /// Every string costs a pointer in argv/envp on top of its bytes.
+    const POINTER_SIZE: usize = std::mem::size_of::<*const std::os::raw::c_char>();
+    /// Linux: MAX_ARG_STRLEN (32 pages), terminator included.
+    #[cfg(target_os = "linux")]
+    const MAX_SINGLE_ARG: usize = 32 * 4096;
+    #[cfg(not(target_os = "linux"))]
+    const MAX_SINGLE_ARG: usize = usize::MAX;
+    /// Linux never grants more than 3/4 of the 8 MiB default stack, however
+    /// large the stack limit (from which sysconf derives ARG_MAX) is.
+    #[cfg(target_os = "linux")]
+    const MAX_TOTAL: usize = 6 * 1024 * 1024;
+    #[cfg(not(target_os = "linux"))]
+    const MAX_TOTAL: usize = usize::MAX;
+
     fn new_system(env: &HashMap<OsString, OsString>) -> Self {
         // POSIX requires that we leave 2048 bytes of space so that the child processes
         // can have room to set their own environment variables.
         const ARG_HEADROOM: usize = 2048;
         let arg_max = unsafe { uucore::libc::sysconf(uucore::libc::_SC_ARG_MAX) } as usize;
+        let arg_max = arg_max.min(Self::MAX_TOTAL);
 
         let env_size: usize = env
             .iter()
-            .map(|(var, value)| count_osstr_chars_for_exec(var) + count_osstr_chars_for_exec(value))
+            .map(|(var, value)| {
+                count_osstr_chars_for_exec(var)
+                    + count_osstr_chars_for_exec(value)
+                    + Self::POINTER_SIZE
+            })
             .sum();
 
-        Self::new(arg_max - ARG_HEADROOM - env_size)
+        Self {
+            current_size: 0,
+            max_size: arg_max.saturating_sub(ARG_HEADROOM + env_size),
+        }
+    }
+}
+
+#[cfg(unix)]
+impl CommandSizeLimiter for SystemCommandSizeLimiter {
+    fn try_arg(
+        &mut self,
+        arg: Argument,
+        cursor: LimiterCursor<'_>,
+    ) -> Result<Argument, ExhaustedCommandSpace> {
+        let chars = count_osstr_chars_for_exec(&arg.arg);
+        let cost = chars + Self::POINTER_SIZE;
+        if chars <= Self::MAX_SINGLE_ARG && self.current_size + cost <= self.max_size {
+            let arg = cursor.try_next(arg)?;
+            self.current_size += cost;
+            Ok(arg)
+        } else {
+            Err(ExhaustedCommandSpace {
+                arg,
+                out_of_chars: true,
+            })
+        }
+    }
+
+    fn dyn_clone(&self) -> Box<dyn CommandSizeLimiter> {
+        Box::new(self.clone())
     }
 }
 
@@ -1018,6 +1079,9 @@ fn do_xargs(args: &[&str]) -> Result<CommandResult, XargsError> {
     if let Some(max_chars) = options.max_chars {
         limiters.add(MaxCharsCommandSizeLimiter::new(max_chars));
     }
+    #[cfg(unix)]
+    limiters.add(SystemCommandSizeLimiter::new_system(&env));
+    #[cfg(windows)]
     limiters.add(MaxCharsCommandSizeLimiter::new_system(&env));
 
     let mut builder_options = CommandBuilderOptions::new(action, env, limiters, replace.clone())
